@@ -3,7 +3,7 @@
 # SEED_ISOLATED=1: do not touch /repo (e.g. while a long run is reading it); the checks import numqi from the patched scratch worktree
 # through PYTHONPATH instead (not valid for C08's CrossHair leg, which reads /repo/python directly).
 set -u
-id=$1; shift; checks=${@:-$id}
+id=$1; shift; checks=${@:-${id:0:3}}          # default check: the property of the seed (C08e -> C08)
 src=/tmp/seed_$id; dst=/verif/seeded/$id
 mkdir -p $dst; cp $src/patch.diff $src/demo.py $dst/ 2>/dev/null; cp $src/meta.json $dst/meta_agent.json 2>/dev/null
 wt=/tmp/verify_$id; git -C /repo worktree remove --force $wt 2>/dev/null; rm -rf $wt; git -C /repo worktree add -q --detach $wt HEAD
